@@ -1,8 +1,18 @@
 #!/venv/bin/python
-"""Run checks against the seeded breaking changes under /verif/seeded/<id>/ (patch.diff +
-meta.json).  Each patch is applied to /repo, the quick check of its property (or the checks given
-with --props) is run with evidence/replays redirected to a scratch directory, and the patch is
-undone straight afterwards.  Results go to /verif/seeded/results.json."""
+"""Run checks against the seeded breaking changes under /verif/seeded/<id>/ (patch.diff, demo.py,
+meta.json).
+
+Each patch is applied in a scratch git worktree of /repo (under /tmp, removed afterwards; /repo
+itself is never touched), and the checks are pointed at it with VERIF_REPO, with evidence and
+replays redirected to a scratch directory.  `--in-repo` instead applies the patch to /repo itself
+(git -C /repo apply) and undoes it straight afterwards (git -C /repo checkout -- .), which is
+exactly how the registered commands would meet such a change.
+
+  tools/seeded.py verify [ids]     (a) patch applies, (b) the repository's test-suite passes with
+                                   it, (c) demo.py fails with it, (d) demo.py passes without it
+  tools/seeded.py run [ids] [--props C08,C09 | --all-props] [--tier quick] [--scale 1.0]
+
+Results are merged into /verif/seeded/results.json."""
 import argparse
 import json
 import os
@@ -14,61 +24,156 @@ import time
 
 ROOT = os.path.dirname(os.path.dirname(os.path.abspath(__file__)))
 SEEDED = os.path.join(ROOT, 'seeded')
+ALL = ['C08', 'C09', 'C10', 'C11', 'C12', 'C13', 'C19', 'C20']
+PY = '/venv/bin/python'
 
 
 def sh(*a, **k):
-    return subprocess.run(a, capture_output=True, text=True, **k)
+    k.setdefault('capture_output', True)
+    k.setdefault('text', True)
+    return subprocess.run(a, **k)
+
+
+class Tree:
+    """a scratch worktree of /repo's HEAD with one patch applied (or /repo itself)"""
+
+    def __init__(self, patch, in_repo=False):
+        self.patch = patch
+        self.in_repo = in_repo
+        self.path = None
+
+    def __enter__(self):
+        if self.in_repo:
+            if sh('git', '-C', '/repo', 'status', '--porcelain', '--untracked-files=no').stdout.strip():
+                raise RuntimeError('/repo has uncommitted changes')
+            self.path = '/repo'
+        else:
+            self.path = tempfile.mkdtemp(prefix='seeded-wt-', dir='/tmp')
+            os.rmdir(self.path)
+            r = sh('git', '-C', '/repo', 'worktree', 'add', '-q', '--detach', self.path, 'HEAD')
+            if r.returncode != 0:
+                raise RuntimeError('worktree add failed: ' + r.stderr[:300])
+        if self.patch:
+            r = sh('git', '-C', self.path, 'apply', self.patch)
+            if r.returncode != 0:
+                self.__exit__(None, None, None)
+                raise RuntimeError('patch does not apply: ' + r.stderr[:300])
+        return self.path
+
+    def __exit__(self, *exc):
+        if self.in_repo:
+            sh('git', '-C', '/repo', 'checkout', '--', '.')
+        elif self.path:
+            sh('git', '-C', '/repo', 'worktree', 'remove', '--force', self.path)
+            shutil.rmtree(self.path, ignore_errors=True)
+            sh('git', '-C', '/repo', 'worktree', 'prune')
+        return False
+
+
+def load_results():
+    try:
+        return json.load(open(os.path.join(SEEDED, 'results.json')))
+    except Exception:
+        return {}
+
+
+def save_results(res):
+    json.dump(res, open(os.path.join(SEEDED, 'results.json'), 'w'), indent=1, sort_keys=True)
+
+
+def run_demo(d, tree):
+    t0 = time.time()
+    try:
+        r = sh('timeout', '120', PY, os.path.join(d, 'demo.py'), tree,
+               env=dict(os.environ, REPO_ROOT=tree, PYTHONDONTWRITEBYTECODE='1'), cwd=d)
+        return r.returncode, (r.stdout + r.stderr)[-400:], round(time.time() - t0, 1)
+    except Exception as e:
+        return -1, str(e), round(time.time() - t0, 1)
+
+
+def verify(ids, a):
+    res = load_results()
+    for sid in ids:
+        d = os.path.join(SEEDED, sid)
+        out = {}
+        with Tree(None) as clean:
+            rc, tail, w = run_demo(d, clean)
+            out['demo_on_unchanged_tree'] = {'rc': rc, 'wall_s': w}
+            if rc != 0:
+                out['demo_on_unchanged_tree']['tail'] = tail
+        try:
+            with Tree(os.path.join(d, 'patch.diff')) as tree:
+                out['patch_applies'] = True
+                r = sh(PY, '-m', 'pytest', '-q', '-p', 'no:cacheprovider', '--timeout=900', '-x',
+                       cwd=tree, env=dict(os.environ, PYTHONDONTWRITEBYTECODE='1'))
+                out['suite_with_patch'] = {'rc': r.returncode,
+                                           'tail': r.stdout.strip().splitlines()[-1:]}
+                rc, tail, w = run_demo(d, tree)
+                out['demo_with_patch'] = {'rc': rc, 'wall_s': w, 'tail': tail[-300:]}
+        except RuntimeError as e:
+            out['patch_applies'] = False
+            out['error'] = str(e)
+        ok = out.get('patch_applies') and out['suite_with_patch']['rc'] == 0 and \
+            out['demo_with_patch']['rc'] not in (0,) and out['demo_on_unchanged_tree']['rc'] == 0
+        out['confirmed'] = bool(ok)
+        res.setdefault(sid, {})['verify'] = out
+        print(sid, 'CONFIRMED' if ok else 'NOT CONFIRMED', json.dumps(out)[:600], flush=True)
+        save_results(res)
+    return 0
+
+
+def run(ids, a):
+    res = load_results()
+    for sid in ids:
+        d = os.path.join(SEEDED, sid)
+        meta = json.load(open(os.path.join(d, 'meta.json')))
+        props = a.props.split(',') if a.props else (ALL if a.all_props else [meta['property']])
+        scratch = tempfile.mkdtemp(prefix='seeded-ev-', dir='/tmp')
+        try:
+            with Tree(os.path.join(d, 'patch.diff'), a.in_repo) as tree:
+                env = dict(os.environ, VERIF_EVIDENCE_DIR=os.path.join(scratch, 'ev'),
+                           VERIF_REPLAY_DIR=os.path.join(scratch, 'rp'), VERIF_REPO=tree)
+                for p in props:
+                    t0 = time.time()
+                    cmd = [os.path.join(ROOT, 'check'), p, '--tier', a.tier, '--scale', a.scale]
+                    if a.no_selftest:
+                        cmd.append('--no-selftest')
+                    if a.seed is not None:
+                        cmd += ['--seed', str(a.seed)]
+                    c = sh(*cmd, env=env, cwd=ROOT)
+                    lines = c.stdout.splitlines()
+                    viol = [ln for ln in lines if ln.startswith('VIOLATION')]
+                    heads = [ln[:400] for ln in lines if ln.startswith('--- ')]
+                    res.setdefault(sid, {}).setdefault('checks', {})[p] = {
+                        'rc': c.returncode, 'violation_lines': len(viol), 'first': heads[:3],
+                        'tier': a.tier, 'scale': a.scale, 'seed': a.seed,
+                        'wall_s': round(time.time() - t0, 1),
+                        'harness_error': [ln[:400] for ln in lines
+                                          if ln.startswith('HARNESS-ERROR')][:1]}
+                    print(sid, p, 'rc', c.returncode, (heads[:1] or lines[-1:]), flush=True)
+        except RuntimeError as e:
+            print(sid, 'ERROR', e)
+            res.setdefault(sid, {})['error'] = str(e)
+        finally:
+            shutil.rmtree(scratch, ignore_errors=True)
+        save_results(res)
+    return 0
 
 
 def main():
     ap = argparse.ArgumentParser()
+    ap.add_argument('cmd', choices=('verify', 'run'))
     ap.add_argument('ids', nargs='*')
-    ap.add_argument('--props', default=None, help='comma list; default: the property in meta.json')
+    ap.add_argument('--props', default=None)
+    ap.add_argument('--all-props', action='store_true')
     ap.add_argument('--tier', default='quick')
     ap.add_argument('--scale', default='1.0')
-    ap.add_argument('--all-props', action='store_true')
+    ap.add_argument('--seed', type=int, default=None)
+    ap.add_argument('--no-selftest', action='store_true')
+    ap.add_argument('--in-repo', action='store_true')
     a = ap.parse_args()
-    if sh('git', '-C', '/repo', 'status', '--porcelain', '--untracked-files=no').stdout.strip():
-        print('refusing: /repo has uncommitted changes')
-        return 2
     ids = a.ids or sorted(d for d in os.listdir(SEEDED) if os.path.isdir(os.path.join(SEEDED, d)))
-    res_path = os.path.join(SEEDED, 'results.json')
-    try:
-        results = json.load(open(res_path))
-    except Exception:
-        results = {}
-    for sid in ids:
-        d = os.path.join(SEEDED, sid)
-        meta = json.load(open(os.path.join(d, 'meta.json')))
-        props = a.props.split(',') if a.props else \
-            (['C08', 'C09', 'C10', 'C11', 'C12', 'C13', 'C19', 'C20'] if a.all_props
-             else [meta['property']])
-        scratch = tempfile.mkdtemp(prefix='seeded-')
-        env = dict(os.environ, VERIF_EVIDENCE_DIR=os.path.join(scratch, 'ev'),
-                   VERIF_REPLAY_DIR=os.path.join(scratch, 'rp'))
-        r = sh('git', '-C', '/repo', 'apply', os.path.join(d, 'patch.diff'))
-        if r.returncode != 0:
-            print(sid, 'patch does not apply:', r.stderr[:300])
-            results.setdefault(sid, {})['apply'] = 'failed'
-            continue
-        try:
-            for p in props:
-                t0 = time.time()
-                c = sh(os.path.join(ROOT, 'check'), p, '--tier', a.tier, '--no-selftest',
-                       '--scale', a.scale, env=env, cwd=ROOT)
-                viol = [ln for ln in c.stdout.splitlines() if ln.startswith('VIOLATION')]
-                heads = [ln[:300] for ln in c.stdout.splitlines() if ln.startswith('--- ')]
-                results.setdefault(sid, {})[p] = {
-                    'rc': c.returncode, 'violations': len(viol), 'first': heads[:3],
-                    'tier': a.tier, 'scale': a.scale, 'wall_s': round(time.time() - t0, 1),
-                    'harness_error': [ln[:300] for ln in c.stdout.splitlines()
-                                      if ln.startswith('HARNESS-ERROR')][:1]}
-                print(sid, p, 'rc', c.returncode, heads[:1] or c.stdout.splitlines()[-1:], flush=True)
-        finally:
-            sh('git', '-C', '/repo', 'checkout', '--', '.')
-            shutil.rmtree(scratch, ignore_errors=True)
-        json.dump(results, open(res_path, 'w'), indent=1, sort_keys=True)
-    return 0
+    return verify(ids, a) if a.cmd == 'verify' else run(ids, a)
 
 
 if __name__ == '__main__':
